@@ -76,7 +76,7 @@ where
 
         match *state {
             PacketStreamState::Idle => {
-                let chunk_size = if packet.end - *size < DEFAULT_CHUNK_SIZE {
+                let chunk_size = if packet.end.saturating_sub(*size) < DEFAULT_CHUNK_SIZE {
                     DEFAULT_CHUNK_SIZE
                 } else {
                     packet.end
